@@ -113,6 +113,15 @@ func (fr *Frame) setResults(v ssa.Value, res []Term, sig *types.Signature) {
 		return
 	}
 	n := sig.Results().Len()
+	// whatever a call returns exists now: it is older than anything allocated from here on
+	for i := 0; i < n && i < len(res); i++ {
+		switch types.Unalias(sig.Results().At(i).Type()).Underlying().(type) {
+		case *types.Pointer, *types.Map:
+			fr.vc.assume(Term{fmt.Sprintf("(<= (atime %s) %s)", res[i].S, fr.cur.Get("clk", SInt).S), SBool})
+		case *types.Slice:
+			fr.vc.assume(Term{fmt.Sprintf("(<= (atime (sarr %s)) %s)", res[i].S, fr.cur.Get("clk", SInt).S), SBool})
+		}
+	}
 	switch {
 	case n == 0:
 	case n == 1:
@@ -500,6 +509,9 @@ func (fr *Frame) applyContract(c *Contract, sig *types.Signature, recvT types.Ty
 			fr.cur = fr.cur.HavocAll(fr.keepList())
 		}
 	}
+	if !c.Pure {
+		fr.cur.Havoc("clk", SInt) // the callee may allocate
+	}
 	var targets []modTarget
 	for _, m := range c.Modifies {
 		ts, err := env.evalModTargets(m)
@@ -520,6 +532,7 @@ func (fr *Frame) applyContract(c *Contract, sig *types.Signature, recvT types.Ty
 			fr.cur.Havoc(t.heap, t.sort)
 		} else {
 			fv := vc.fresh("hv", arrayElemSort(t.sort))
+			vc.assume(fr.te().refBound(t.heap, fv, fr.cur.Get("clk", SInt)))
 			fr.cur.Set(t.heap, vc.define(t.heap+"!s", tStore(h, t.base, fv)))
 		}
 	}
